@@ -325,6 +325,17 @@ func builtin(n *Node, t *TestSpec) (string, [][2]string, string) {
 	panic("builtin " + n.Kind + "/" + t.Builtin)
 }
 
+// leafIVal: a leaf as the input value of the same Go type (what a custom slice coercer hands on)
+func leafIVal(l Leaf, kind string) IVal {
+	switch kind {
+	case KInt:
+		return intV(l.I)
+	case KBool:
+		return boolV(l.B)
+	}
+	return strV(l.S)
+}
+
 func coqTest(n *Node, t *TestSpec, defaultCode string) string {
 	code := defaultCode
 	var params [][2]string
@@ -446,7 +457,18 @@ func CoqSchema(n *Node, order map[*Node][]string) string {
 			}
 			def = "(Some " + coqList(xs) + ")"
 		}
-		return "(SSlice " + CoqSchema(n.Elem, order) + " (SL coerce_slice " + coqOptTest(n, n.Req, "required") + " " + def + " " + ZeroD(n.Elem) + " " + coqTests(n) + " " + coqPTs(n) + "))"
+		sco := "coerce_slice"
+		switch n.Coercer {
+		case "err":
+			sco = "(fun _ => None)"
+		case "const":
+			var xs []string
+			for _, l := range n.CoList {
+				xs = append(xs, CoqIVal(leafIVal(l, n.Elem.Kind)))
+			}
+			sco = "(fun _ => Some " + coqList(xs) + ")"
+		}
+		return "(SSlice " + CoqSchema(n.Elem, order) + " (SL " + sco + " " + coqOptTest(n, n.Req, "required") + " " + def + " " + ZeroD(n.Elem) + " " + coqTests(n) + " " + coqPTs(n) + "))"
 	case KPtr:
 		return "(SPtr " + CoqSchema(n.Elem, order) + " " + coqOptTest(n, n.Req, "not_nil") + " " + ZeroD(n.Elem) + ")"
 	case KCustom:
@@ -526,6 +548,11 @@ func schemaStrings(n *Node, out map[string]bool, layoutsOut map[string]bool) {
 	}
 	add(n.CoerceTo)
 	for _, l := range n.DefSlice {
+		if l.Kind == KString {
+			out[l.S] = true
+		}
+	}
+	for _, l := range n.CoList {
 		if l.Kind == KString {
 			out[l.S] = true
 		}
